@@ -560,8 +560,9 @@ class WebSocketHandler(tornado.web.RequestHandler):
 
         host = self.request.headers.get("Host")
 
-        # Check to see that origin matches host directly, including ports
-        return origin == host
+        # Check to see that origin matches host directly, including ports.
+        # Host names are case-insensitive (the origin was lowercased above).
+        return host is not None and origin == host.lower()
 
     def set_nodelay(self, value: bool) -> None:
         """Set the no-delay flag for this stream.
